@@ -167,6 +167,8 @@ Definition update_auth (v : variant) (c x : N) (s : st) : st :=
 
 Definition bump (s : st) : st := {| streams := streams s; sess := sess s; reg := reg s; idx := idx s; tun := tun s; tmap := tmap s;
   closed := closed s; wfail := wfail s; now := now s; nseq := nseq s + 1 |}.
+(* a record that carries a ClientID without being authenticated (no production caller builds one; Register must not index it) *)
+Definition claim_ctl (s : st) (x : N) : ctl := {| c_cid := x; c_auth := false; c_seq := nseq s; c_last := now s |}.
 Definition new_ctl (s : st) (x : N) : ctl := {| c_cid := x; c_auth := 0 <? x; c_seq := nseq s; c_last := now s |}.
 
 (* TunnelRegistry.Remove *)
@@ -197,7 +199,8 @@ Inductive op :=
 | AuthRaw (c x : N)
 | ToTunnel (c t : N)
 | BreakWrites (c : N)
-| ReReg (c pre : N).      (* RegisterControlConnection(NewControlConnection(session conn c)) whether or not c has a record *)
+| ReReg (c pre : N)      (* RegisterControlConnection(NewControlConnection(session conn c)) whether or not c has a record *)
+| RegClaim (c x : N).     (* the same with a record whose ClientID is pre-filled with x but which is NOT authenticated *)
 
 (* what an operation returns: error flag and a count (sweep) *)
 Definition res := (bool * N)%type.
@@ -300,6 +303,10 @@ Definition step (v : variant) (k : cfg) (s : st) (o : op) : st * res :=
   | ReReg c pre =>
       if mem c (sess s) && negb (mem c (closed s))
       then (bump (registry_rereg v k c (new_ctl s pre) s), (false, 0))
+      else (s, (false, 0))
+  | RegClaim c x =>
+      if mem c (sess s) && negb (mem c (closed s))
+      then (bump (registry_rereg v k c (claim_ctl s x) s), (false, 0))
       else (s, (false, 0))
   | BreakWrites c =>
       if mem c (streams s) then
